@@ -227,24 +227,26 @@ func addIntrinsics(P *Program) {
 		return i.fault(goString(args[0], "fault site"))
 	})
 	reg("SetFaults", func(i *interpreter, fr *frame, fn *ssa.Function, args []value) value {
-		i.faultBudget = int(asInt64(args[0]))
-		i.faultsOn = true
+		i.faultBudget = i.faultsUsed + int(asInt64(args[0]))
+		i.faultsOn = asInt64(args[0]) > 0
 		return nil
 	})
 }
 
 // fault decides whether the environment fails at site (a fork, bounded by the fault budget).
+// Occurrences of a site are numbered (site, site#1, ...), whether or not they fail,
+// so that the native twin can inject exactly the same ones.
 func (i *interpreter) fault(site string) bool {
+	if i.faults == nil {
+		i.faults = map[string]int{}
+	}
+	n := i.faults[site]
+	i.faults[site] = n + 1
+	key := site
+	if n > 0 {
+		key = fmt.Sprintf("%s#%d", site, n)
+	}
 	if cc := i.w.concrete; cc != nil {
-		if i.faults == nil {
-			i.faults = map[string]int{}
-		}
-		n := i.faults[site]
-		i.faults[site] = n + 1
-		key := site
-		if n > 0 {
-			key = fmt.Sprintf("%s#%d", site, n)
-		}
 		for _, f := range cc.Faults {
 			if f == key {
 				return true
@@ -261,11 +263,7 @@ func (i *interpreter) fault(site string) bool {
 	k := i.decide("fault:"+site, 2, func(int) *Term { return nil })
 	if k == 1 {
 		i.faultsUsed++
-		i.trace = append(i.trace, "fault@"+site)
-		if i.faults == nil {
-			i.faults = map[string]int{}
-		}
-		i.faults[site]++
+		i.trace = append(i.trace, "fault@"+key)
 		return true
 	}
 	return false
